@@ -238,6 +238,9 @@ def scenarios(draw, cfg):
         # how the root folder is typed in every command of this scenario: absolute, with a trailing separator,
         # relative to the parent directory, or as "." from inside
         scn["spell"] = draw(st.sampled_from(["abs", "abs", "abs", "slash", "rel", "dot"]))
+    if cfg.get("sf_spell", True) and any(s_["op"] == "create_sf" for s_ in steps):
+        # how -sf paths are typed: as they are, or in a form that is not normalised (a/./b, a/../a/b)
+        scn["sf_spell"] = draw(st.sampled_from([None, None, None, "dotslash", "dotdot"]))
     return scn
 
 
@@ -304,6 +307,8 @@ def apply_step(world, scn, step, **kw):
     elif op == "create":
         return world.create(W(step["root"]), step["formats"], flags=step.get("flags", ()), extra=step.get("extra", ()), **kw)
     elif op == "create_sf":
+        if scn.get("sf_spell") and "sf_spell" not in kw:
+            kw["sf_spell"] = scn["sf_spell"]
         return world.create(
             W(step["root"]), step["formats"], sf=[W(s) for s in step["sf"]], flags=step.get("flags", ()),
             extra=step.get("extra", ()), **kw
